@@ -269,6 +269,10 @@ pub enum Op {
     SetWithdrawalsLegacy,
     /// deprecated `add_mint_asset` / `set_mint_asset` with an inline native policy
     MintLegacy { script: ScriptId, name: Vec<u8>, qty: i64, set: bool },
+    /// deprecated `set_mint`: the whole mint as the builder reports it (`get_mint`, `get_mint_scripts`) is handed
+    /// back through the old whole-collection setter - only when every policy so far is an inline native script without
+    /// a signer declaration, so that nothing is lost. `true`: one script is left out, the call has to be refused (F4)
+    SetMintLegacy(bool),
     /// hand the session's inputs builder over again (drops inputs a selection added)
     SetInputsAgain,
     /// hand the unchanged collection builders over again (bit 0 collateral, 1 certificates, 2 withdrawals,
